@@ -246,7 +246,8 @@ def run_property(prop, tier, seed, replay=None, only_case=None):
         else:
             new_violations.append(f)
     # a disagreement (model ≠ implementation) with no oracle failure on the same case: the tie is broken
-    fail_cases = {f["case"] for f in fails}
+    # (cases whose only oracle failures are listed findings do not excuse a disagreement: the model reproduces those)
+    fail_cases = {f["case"] for f in new_violations}
     orphan_dis = [d for d in disagreements if d["case"] not in fail_cases]
 
     printed = []
